@@ -125,8 +125,30 @@ def build(case_dec, which):
     """Return (call, x0): call(x) evaluates the configuration with x in the differentiated slot."""
     mods = _mods(which)
     prim, ns, form = case_dec["prim"], case_dec["ns"], case_dec["form"]
-    args, kwargs, argnum = case_dec["args"], case_dec["kwargs"], case_dec["argnum"]
+    args, kwargs_, argnum = case_dec["args"], case_dec["kwargs"], case_dec["argnum"]
     outsel = case_dec.get("outsel")
+    fresh_out = case_dec.get("fresh_out")  # [shape, dtype-name]: a new output buffer for `out=` on every call
+
+    import collections.abc
+
+    class _KW(collections.abc.Mapping):
+        """kwargs with a per-call fresh `out=` buffer (each ** expansion allocates a new one)."""
+
+        def __init__(self, d):
+            self.d = d
+
+        def __iter__(self):
+            return iter(list(self.d) + ["out"])
+
+        def __len__(self):
+            return len(self.d) + 1
+
+        def __getitem__(self, k):
+            if k == "out":
+                return onp.zeros(tuple(fresh_out[0]), dtype=fresh_out[1])
+            return self.d[k]
+
+    kwargs = _KW(kwargs_) if fresh_out else kwargs_
     dup = case_dec.get("dup")
     mod = mods[ns]
 
@@ -284,7 +306,7 @@ def signature(case_dec, mode):
         "kw": {k: classify(v) for k, v in case_dec["kwargs"].items()},
         "point": case_dec.get("point", "regular"),
     }
-    for k in ("bcast", "tags", "outsel", "dup", "domain", "layout", "outer", "joint", "dup_paths"):
+    for k in ("bcast", "tags", "outsel", "dup", "domain", "layout", "outer", "joint", "dup_paths", "fresh_out"):
         if case_dec.get(k) is not None:
             sig[k] = case_dec[k]
     return sig
@@ -981,7 +1003,7 @@ def make_cases(pid, tier, seed):
     sigcache = {}
     extra = []
     for c in out:
-        if c["form"] != "function" or not c["kwargs"] or c["ns"] not in nsmods or c.get("dup") or c.get("layout") or c.get("joint"):
+        if c["form"] != "function" or not c["kwargs"] or c["ns"] not in nsmods or c.get("dup") or c.get("layout") or c.get("joint") or c.get("fresh_out"):
             continue
         key = (c["ns"], c["prim"])
         if key not in sigcache:
